@@ -2,9 +2,9 @@ package po
 
 import (
 	"fmt"
-	"os"
 	"go/token"
 	"go/types"
+	"os"
 	"sort"
 	"strings"
 
@@ -84,11 +84,11 @@ type Engine struct {
 	// linear forms of a value / of a sequence's length in the function's context.
 	Extra func(fn *ssa.Function, in ssa.Instruction, lin func(ssa.Value) Lin, seqLen func(ssa.Value) Lin) []ExtraOb
 
-	fieldLen  map[*types.Var]int64
+	fieldLen map[*types.Var]int64
 	// fieldMin: integer struct fields whose every store (program-wide) is a constant; the value
 	// is the smallest constant stored, with 0 added when some function allocates the owning
 	// struct without assigning the field
-	fieldMin map[*types.Var]int64
+	fieldMin  map[*types.Var]int64
 	globalLen map[*ssa.Global]int64
 }
 
